@@ -421,3 +421,46 @@ pub fn fos_kind(stack: &str) -> u8 {
         _ => 0,
     }
 }
+
+// ---------------------------------------------------------------------------------------------
+// Real-runner histories for the writer oracles (C12, C14): the whole pipeline through
+// `Cucumber::filter_run`, returning the writer so that its state can be inspected.
+
+pub struct RealRun<Wr> {
+    pub raw: Vec<Ev>,
+    pub end: RunEnd,
+    pub panic_msg: Option<String>,
+    pub writer: Option<Wr>,
+    pub stats: SchedStats,
+    pub sched_digest: u64,
+}
+
+pub fn run_filter_run<Wr>(core: &Rc<SimCore>, plan: &Rc<Plan>, writer: Wr, wcli: Wr::Cli) -> Result<RealRun<Wr>, String>
+where
+    Wr: Writer<SimWorld> + writer::Normalized + 'static,
+    Wr::Cli: 'static,
+{
+    let _ctx = world::install_run(core, plan, false);
+    runa::install_counting_hook();
+    let stream = SimParserStream::new(core, plan)?;
+    let runner: SimRunner = runa::build_runner(plan);
+    let raw = Rc::new(RefCell::new(Vec::new()));
+    let rec = Rc::new(RefCell::new(Recorder::new(core)));
+    let tap = Tap { inner: runner, log: Rc::clone(&raw), rec };
+    let opts = cli::Opts { re_filter: None, tags_filter: None, parser: cli::Empty, runner: runa::build_cli(plan), writer: wcli, custom: cli::Empty };
+    let cuc = Cucumber::<SimWorld, _, (), _, _, cli::Empty>::custom(SimParser(stream), tap, writer).with_cli(opts);
+    let out: Rc<RefCell<Option<Wr>>> = Rc::new(RefCell::new(None));
+    let out2 = Rc::clone(&out);
+    let root = Box::pin(async move {
+        let w = cuc.filter_run((), |_, _, _| true).await;
+        *out2.borrow_mut() = Some(w);
+    });
+    let outcome = core::run_root(core, root, &mut |_| {});
+    runa::install_counting_hook();
+    world::uninstall_run();
+    let panic_msg = outcome.panic_payload.as_deref().map(|p| {
+        p.downcast_ref::<String>().cloned().or_else(|| p.downcast_ref::<&'static str>().map(|s| (*s).to_owned())).unwrap_or_else(|| "<non-string payload>".into())
+    });
+    let writer = out.borrow_mut().take();
+    Ok(RealRun { raw: raw.borrow().clone(), end: outcome.end, panic_msg, writer, stats: core.stats.borrow().clone(), sched_digest: core.sched_digest.get() })
+}
